@@ -44,14 +44,6 @@ func loadKnown(path string) *KnownFindings {
 
 var verifRoot = "/verif"
 
-// propertyPackages: package patterns to load per property (kept small for speed).
-var propertyPackages = map[string][]string{
-	"C01": {"./io"},
-	"C04": {"./io", "./lang/value", "./lang/pack", "./lang/step", "./lang/service"},
-	"C15": {"./util/hash", "./util/hexa32", "./util/bitutil", "./util/iputil", "./util/hll", "./util/stringutil"},
-	"C14": {"./util/hll"},
-}
-
 func cmdCheck(args []string) {
 	fs := flag.NewFlagSet("check", flag.ExitOnError)
 	prop := fs.String("p", "", "property id")
@@ -72,9 +64,37 @@ func cmdCheck(args []string) {
 
 func runCheck(prop, tier, root string, seed int) int {
 	t0 := time.Now()
-	pats, ok := propertyPackages[prop]
-	if !ok {
-		pats = allPatterns
+	// packages to load: those whose contract files carry this property tag
+	cs0, err0 := LoadContracts(root)
+	if err0 != nil {
+		fmt.Printf("UNDECIDED property=%s: contract files do not parse: %v\n", prop, err0)
+		return 2
+	}
+	dirs := map[string]bool{}
+	for _, fc := range cs0.Funcs {
+		if hasProp(fc.Props, prop) && !fc.Extern {
+			dirs[filepath.Dir(fc.File)] = true
+		}
+	}
+	for _, a := range cs0.Axioms {
+		if a.Lemma && hasProp(a.Props, prop) {
+			dirs[filepath.Dir(a.File)] = true
+		}
+	}
+	for _, tc := range cs0.Types {
+		if hasProp(tc.Props, prop) {
+			dirs[filepath.Dir(tc.File)] = true
+		}
+	}
+	var pats []string
+	for d := range dirs {
+		rel, _ := filepath.Rel(root, d)
+		pats = append(pats, "./"+rel)
+	}
+	sort.Strings(pats)
+	if len(pats) == 0 {
+		fmt.Printf("UNDECIDED property=%s: no contracts carry this property tag (zero obligations would be vacuous)\n", prop)
+		return 2
 	}
 	prog, err := LoadProgram(root, pats, nil)
 	if err != nil {
@@ -116,7 +136,7 @@ func runCheck(prop, tier, root string, seed int) int {
 	work := filepath.Join(verifRoot, "work", prop)
 	os.RemoveAll(work)
 	os.MkdirAll(work, 0o755)
-	cfg := SolverCfg{WorkDir: work, Timeout: 12 * time.Second, Parallel: 16, Thorough: tier == "thorough", KeepFiles: false}
+	cfg := SolverCfg{WorkDir: work, Timeout: 40 * time.Second, Parallel: 16, Thorough: tier == "thorough", KeepFiles: false}
 	if tier == "thorough" {
 		cfg.Timeout = 120 * time.Second
 	}
